@@ -151,7 +151,7 @@ func runCase(r *evid.Run, dir string, cs int64, idx int) {
 	highest := map[br]int{} // highest used index
 	utxo := map[wire.OutPoint]btcutil.Amount{}
 	usedAddrs := map[string]btcutil.Address{}
-	notCredited := map[string]bool{} // custom-scope addresses: known after recovery, never credited or marked used
+	notCredited := map[string]bool{}   // custom-scope addresses: known after recovery, never credited or marked used
 	txAt := map[chainhash.Hash]int32{} // every tx paying to / spending from the wallet -> height
 	payHeights := map[int32]bool{}     // heights with at least one payment to the wallet
 	var plog []string
@@ -755,7 +755,7 @@ func main() {
 	r.Rule("generated chains (25..400 blocks; one long chain per quick run and several per thorough run of 2050..4400 blocks crossing the 2000-block recovery batch boundary, with payments forced into the +-14 blocks around each boundary) in which every block pays, per default key scope and branch, only indices <= (highest index paid in earlier blocks) + W (incl. the far edge of the look-ahead and re-use of old indices), several payments per block, later spends of recovered outputs with and without change (the latter visible only through watched outpoints), W in {1,2,3,5,20}, block spacing 10 min / 2 h / 6 h with the creation time at a random height or before the chain, recovery locked or unlocked, every fifth wallet with a custom key scope (m/1017'/1', P2WPKH) registered beforehand and paid to, interrupted by a FilterBlocks error at the k-th call (sync retry resumes) and by stop + reopen; two RESUME chains per run (2400..2700 blocks, payments concentrated on one branch of one scope so that the two persisted branch counters differ widely) in which the first FilterBlocks call of the second batch fails, so that the retry resumes from a committed batch (one of them with stop + reopen); addresses come from the independent BIP32 oracle (legacy rule). After recovery the generator's ledger is the oracle: CalculateBalance(0/1), ListUnspent as a set with amounts, every used address known and marked used, every paying/spending transaction recorded at its height, each branch's key count above the highest used index, BirthdayBlock below the first block whose timestamp reaches the creation time, and PrivKeyForAddress for every index up to the highest used one (gap addresses too). Invalid child indices are driven synthetically at the exported BranchRecoveryState API (look-ahead invariant). Non-trivial = chain with at least one payment; distinct = distinct case descriptions.")
 	r.Trusted("internal/fakechain FilterBlocks built on the real chain.BlockFilterer (anchored code)", "independent BIP32 oracle")
 	r.Assume("payments only in blocks whose timestamp is >= the creation time handed to wallet.Create", "look-ahead condition read as index <= highest-paid-earlier + W (what horizon = nextUnfound + W gives)")
-	dir, _ := os.MkdirTemp("", "c16")
+	dir := r.TempDir("c16")
 	defer os.RemoveAll(dir)
 	r.Parallel("recovery", r.N(40, 900), evid.Workers(), func(i int, cs int64) { runCase(r, dir, cs, i) })
 	r.Parallel("lookahead", r.N(200, 5000), evid.Workers(), func(i int, cs int64) { lookahead(r, cs) })
